@@ -2,12 +2,19 @@ package goat
 
 import (
 	"context"
+	"errors"
 	"sync"
+
+	"github.com/avos-io/goat/internal"
 )
 
 type demuxConn struct {
 	r chan *Rpc
 	w chan *Rpc
+
+	// closed by Cancel. The data channels are never closed: the run loop and
+	// the users of the connection may be sending on them.
+	done chan struct{}
 }
 
 // Wraps a Goat Server, demultiplexing IO.
@@ -66,7 +73,12 @@ func (gsd *Demux) Run() {
 		}
 		gsd.conns.Unlock()
 
-		conn.r <- rpc
+		select {
+		case conn.r <- rpc:
+		case <-conn.done:
+		case <-gsd.ctx.Done():
+			return
+		}
 	}
 }
 
@@ -75,8 +87,7 @@ func (gsd *Demux) Cancel(id string) {
 	defer gsd.conns.Unlock()
 
 	if conn, ok := gsd.conns.value[id]; ok {
-		close(conn.r)
-		close(conn.w)
+		close(conn.done)
 	}
 
 	delete(gsd.conns.value, id)
@@ -84,14 +95,17 @@ func (gsd *Demux) Cancel(id string) {
 
 func (gsd *Demux) newConnLocked(id string) *demuxConn {
 	c := &demuxConn{
-		r: make(chan *Rpc),
-		w: make(chan *Rpc),
+		r:    make(chan *Rpc),
+		w:    make(chan *Rpc),
+		done: make(chan struct{}),
 	}
 
 	go func() {
 		for {
 			select {
 			case <-gsd.ctx.Done():
+				return
+			case <-c.done:
 				return
 			case rpc, ok := <-c.w:
 				if !ok {
@@ -107,7 +121,37 @@ func (gsd *Demux) newConnLocked(id string) *demuxConn {
 
 	gsd.conns.value[id] = c
 
-	go gsd.onNewConnection(NewGoatOverChannel(c.r, c.w))
+	go gsd.onNewConnection(c.readWriter())
 
 	return c
+}
+
+// readWriter is NewGoatOverChannel(c.r, c.w) which additionally fails once the
+// connection has been cancelled.
+func (c *demuxConn) readWriter() RpcReadWriter {
+	errCancelled := errors.New("demux connection cancelled")
+
+	read := func(ctx context.Context) (*Rpc, error) {
+		select {
+		case <-ctx.Done():
+			return nil, ctx.Err()
+		case <-c.done:
+			return nil, errCancelled
+		case rpc := <-c.r:
+			return rpc, nil
+		}
+	}
+
+	write := func(ctx context.Context, rpc *Rpc) error {
+		select {
+		case <-ctx.Done():
+			return ctx.Err()
+		case <-c.done:
+			return errCancelled
+		case c.w <- rpc:
+			return nil
+		}
+	}
+
+	return internal.NewFnReadWriter(read, write)
 }
